@@ -205,4 +205,24 @@ def thread_jumps(body, adts=None):
         changed_any = True
         if len(nb) > 4000:
             break
+    if changed_any:
+        # blocks that became unreachable must not be seen by rules that enumerate call sites / stores
+        seen = set()
+        st = [0]
+        while st:
+            b = st.pop()
+            if b in seen:
+                continue
+            seen.add(b)
+            st.extend(cur.succs(b, True))
+        j = copy.deepcopy(cur.j)
+        for i, blk in enumerate(j['blocks']):
+            if i not in seen:
+                blk['stmts'] = []
+                blk['term'] = {'k': 'unreachable'}
+                blk['cleanup'] = True
+                blk['dead'] = True
+        nbody = Body(j, cur.crate)
+        nbody.inlined = getattr(cur, 'inlined', None)
+        cur = nbody
     return cur
